@@ -7,7 +7,7 @@ PROP = {
     "level_note": "Trusted: Coq kernel + vm_compute; the hand transcriptions Name/Name.v, NameMsgs.v, NamePaging.v, NameUnicode.v (tied to the code only by the correspondence run, bounded by its generators); the Go harness' projection; the history model is ASCII (the UTF-8 model covers Normalize only, on a tabulated part of Unicode, proved conservative over the ASCII one); addresses are abstract ids in the history model (always well-formed bech32; the byte layout of the index prefix is a separate theorem); every signer has an account and no attributes exist (DeleteName's PurgeAttribute call); store iteration order not modelled (listings compared sorted, page SIZES compared); reverse paging only through the property checker; the correspondence instantiates the hash with the identity. No axioms.",
     "technique": "Coq proof over all histories of a Gallina model of the name keeper (hash abstract) + differential correspondence evaluated in Coq",
     "coq_files": ["Name/Name.v", "Name/NameMsgs.v", "Name/NamePaging.v", "Name/NameUnicode.v", "Proofs/NameProofs.v", "Proofs/NameValidProofs.v", "Proofs/NamePagingProofs.v", "Proofs/NameMsgsProofs.v", "Proofs/NameHistoryProofs.v", "Proofs/NameGenesisProofs.v", "Proofs/NameAuthorityProofs.v", "Proofs/NameUnicodeProofs.v", "Corr/CorrBase.v", "Corr/C15.v"],
-    "rule": "histories over a random parent-closed name tree (2 roots, 2-3 children each, 0-2 grandchildren, some great-grandchildren; segments of 2-4 characters from abcde12 and an occasional dash; 1 history in 8 over a universe built around a colliding pair u.vw / wu.v; 1 in 5 starting under tightened length/level limits; 1 in 6 starting with a genesis import; 1 in 6 with the dotted-record-name prelude), 66% of the steps chosen to be acceptable from the keeper's current state and limits (owner binds/modifies/deletes, authority creates roots and updates params, imports of unbound valid names) and the rest by strangers, on bound/unbound names, with capitals/padding/short/dotted record names (two-level record names under the grand parent whose implied parent exists / is missing / is restricted and foreign), duplicate and invalid genesis bindings, nonsensical limits, upper-case bech32 spellings; a history is non-trivial when at least 8 steps of at least 3 kinds were accepted; distinct = distinct (universe, step list). Pair cases are non-trivial when the two names share the real store key; normalize cases when the accepted result differs from the input; spelling cases when the address owns a name.",
+    "rule": "histories over a random parent-closed name tree (2 roots, 2-3 children each, 0-2 grandchildren, some great-grandchildren; segments of 2-4 characters from abcde12 and an occasional dash; 1 history in 8 over a universe built around a colliding pair u.vw / wu.v; 1 in 8 over a universe with long segments in twins that share their first 32 bytes (uuid-shaped children, 33-64 character children under max_segment_length 64, directed prelude binding both twins); 1 in 5 starting under tightened length/level limits; 1 in 6 starting with a genesis import; 1 in 6 with the dotted-record-name prelude), 66% of the steps chosen to be acceptable from the keeper's current state and limits (owner binds/modifies/deletes, authority creates roots and updates params, imports of unbound valid names) and the rest by strangers, on bound/unbound names, with capitals/padding/short/dotted record names (two-level record names under the grand parent whose implied parent exists / is missing / is restricted and foreign), duplicate and invalid genesis bindings, nonsensical limits, upper-case bech32 spellings; a history is non-trivial when at least 8 steps of at least 3 kinds were accepted; distinct = distinct (universe, step list). Pair cases (incl. in every run ~250 twin pairs of uuid-shaped / urn:uuid / braced / 33-64 character segments agreeing on the first 31-63 bytes, and an enumeration over a pool with such segments) are non-trivial when the two names share the real store key; normalize cases when the accepted result differs from the input; spelling cases when the address owns a name.",
     "assumptions": ["history model: names are ASCII byte strings; Go's TrimSpace/ToLower/IsLower/IsDigit as transcribed in Name/Name.v header; beyond ASCII only Keeper.Normalize is modelled (Name/NameUnicode.v, tables generated from Go's unicode package for the listed ranges)",
                     "SHA-256 is a function (nothing else; injective where a theorem says so); the model run used for correspondence keys records by pre-image",
                     "every message signer has an account and the deleted name carries no attributes (PurgeAttribute succeeds)",
